@@ -478,7 +478,11 @@ class Check(PropertyCheck):
                   "deliberately); the hypothesis is explicit (Admissible) and shown necessary by pending_poke_misroutes. "
                   "dead_entry_never_routed / failed_attempt_never_routed assume that raw state changes never re-open a socket "
                   "(NoReopen) and, for the latter, that the pending connection is not connected before its result arrives "
-                  "(visible in every pool dump of the tie, not proved as an invariant).")
+                  "(visible in every pool dump of the tie, not proved as an invariant). Lenient branches (generator domain, no oracle "
+                  "waiver): pokes of a connection whose attempt is pending or whose tunnel is still connecting are not made; in "
+                  "reverse modes the context connection's address is never set to None (transparent-mode streams assert it); an "
+                  "HTTP/1 client sends one request at a time; the oracle's socket clause uses the harness's own record of what each "
+                  "connection was opened for; C08 has no recorded finding, known() excuses nothing (known_selftest).")
     technique = "Lean 4 proof (pool invariant over all histories) + end-to-end correspondence through the real HttpLayer with scripted connection outcomes"
     rule = ("scenario grid (mode x client protocol x two-request patterns over the 3x2x2x2(+1 proxy) destination universe x "
             "connection fates) then random histories of <= 12 steps: requests (with requestheaders/request rewrites of host, "
